@@ -29,6 +29,7 @@ RULE = (
     "READY/WORKING non-automatic non-facility task t_high with a strictly better key under the run's task rule "
     "(key read from the live 'updated' snapshot) for which the worker is eligible and which could still accept it at "
     "the end of allocation; for a higher-priority facility task (single task of its component, flat product) the "
+    "The simulation part also observes the inner run of backward_simulate() under the rule given to it, and a dense profile in which everybody can do everything. One spec in three has lived before (warm start): another model edited in place into this one or swapped into the old project object, or the model's own run cut short by max_time and then continued with one of the unequal initialize-flag combinations (state carried over and logs restarted, or state reset and logs appended), or a first run that does not initialize the logs. "
     "same with a FREE facility of the placed workplace that the worker can operate (pair form). Non-trivial = a list with a tie and >= 3 distinct keys (part 1) / a step where a worker "
     "eligible for >= 2 candidate tasks was allocated (part 2); distinct by case hash."
 )
@@ -107,12 +108,15 @@ def _lists(draw):
     }
 
 
-CFG_SIM = gen.Cfg(warm=4, facilities=True, max_workers=4, min_tasks=3, max_time=[30], p_auto=12, tie_rich=4, kinds=[0, 0, 0, 1])
+CFG_SIM = gen.Cfg(warm_modes=["morph", "graft", "carry", "append", "nolog"], warm=3, facilities=True, max_workers=4, min_tasks=3, max_time=[30], p_auto=12, tie_rich=4, kinds=[0, 0, 0, 1])
 
 
 @st.composite
 def _sim(draw, cfg):
-    return {"kind": "sim", "spec": draw(gen.model_spec(cfg))}
+    spec = draw(gen.model_spec(cfg))
+    if not spec.get("warm") and draw(st.integers(0, 3)) == 0:
+        spec["backward"] = True  # the rule given to backward_simulate() governs its inner run in the same way
+    return {"kind": "sim", "spec": spec}
 
 
 CFG_PAIRS = CFG_SIM.copy(max_wps=2, max_facs_per_wp=3, min_tasks=3, max_tasks=6, max_workers=4, inputs=False, kinds=[0, 0, 0, 1, 2, 3],
@@ -126,30 +130,9 @@ def _sim_pairs(draw, cfg):
 
 @st.composite
 def _sim_dense_pairs(draw, cfg):
-    """Pairs profile in which everybody can do everything (all skills positive, every team and workplace serves every
-    task, room for all components, few workers): who gets a worker is then decided by the priority order alone, also
-    for tasks with nothing left to do (zero work, or held WORKING by a finish-to-finish link)."""
-    spec = gen.single_task_components(draw(gen.model_spec(cfg)))
-    n = len(spec["tasks"])
-    for tm in spec["teams"]:
-        tm["targets"] = list(range(n))
-        tm.pop("notask", None)
-    for wp in spec["wps"]:
-        wp["targets"] = list(range(n))
-        wp.pop("notask", None)
-        wp["cap"] = 100.0
-    for f in spec["facs"]:
-        f["skills"] = {str(i): draw(st.sampled_from([0.5, 1.0, 1.0])) for i in range(n)}
-        f["solo"] = False
-    spec["workers"] = spec["workers"][: draw(st.integers(1, 2))]
-    for w in spec["workers"]:
-        w["skills"] = {str(i): draw(st.sampled_from([0.5, 1.0, 1.0])) for i in range(n)}
-        w["fsk"] = {str(j): 1.0 for j in range(len(spec["facs"]))}
-        w["solo"] = draw(st.booleans())
-    for t in spec["tasks"]:
-        t["fixw"] = None
-        t["fixf"] = None
-    gen.share_skills_by_name(spec)
+    spec = draw(gen.dense_pairs_spec(cfg))
+    if not spec.get("warm") and draw(st.integers(0, 2)) == 0:
+        spec["backward"] = True
     return {"kind": "sim", "spec": spec}
 
 
@@ -162,7 +145,7 @@ def strategy(tier):
 
 def budget(tier):
     if tier == "quick":
-        return {"cases": 4500, "shards": 8}
+        return {"cases": 8000, "shards": 8}
     return {"cases": 200000, "shards": 16}
 
 
@@ -314,6 +297,7 @@ def check_sim(case, res):
     sim = simcheck.Sim(spec, phases=("updated", "allocated"))
     rule = spec["opts"]["rule"]
     res.cls("rule_" + TaskPriorityRuleMode(rule).name)
+    res.cls("backward_run", sim.backward)
     flat_product = all(c.get("parent") is None for c in spec["comps"])
     comp_tasks = {}
     for i, t in enumerate(spec["tasks"]):
